@@ -345,10 +345,9 @@ class Envelope:
                     or len(states) == 0
                     or len(states) == 2
                 ):
-                    probabilities = (
-                        jnp.abs(jnp.sum(ps, axis=self.polarization.index)).flatten()
-                        ** 2
-                    )
+                    probabilities = jnp.sum(
+                        jnp.abs(ps) ** 2, axis=self.polarization.index
+                    ).flatten()
                     key = C.random_key
                     choice = int(
                         jax.random.choice(
@@ -358,7 +357,9 @@ class Envelope:
                     outcomes[self.fock] = choice
 
                     # Construct post measurement state
-                    post_measurement = jnp.take(ps, choice, self.polarization.index)
+                    post_measurement = (
+                        jnp.zeros((self.fock.dimensions, 1)).at[choice, 0].set(1)
+                    )
                     ps = jnp.take(ps, choice, axis=self.fock.index)
 
                     einsum = "ij,kj->ikj"
@@ -372,9 +373,9 @@ class Envelope:
                     or len(states) == 0
                     or len(states) == 2
                 ):
-                    probabilities = (
-                        jnp.abs(jnp.sum(ps, axis=self.fock.index)).flatten() ** 2
-                    )
+                    probabilities = jnp.sum(
+                        jnp.abs(ps) ** 2, axis=self.fock.index
+                    ).flatten()
                     key = C.random_key
                     choice = int(
                         jax.random.choice(
@@ -384,7 +385,11 @@ class Envelope:
                     outcomes[self.polarization] = choice
 
                     # Construct post measurement state
-                    post_measurement = jnp.take(ps, choice, self.polarization.index)
+                    post_measurement = (
+                        jnp.zeros((self.polarization.dimensions, 1))
+                        .at[choice, 0]
+                        .set(1)
+                    )
                     ps = jnp.take(ps, choice, axis=self.polarization.index)
                     einsum = "ij,kj->ikj"
                     if self.fock.index == 0:
